@@ -139,9 +139,9 @@ func nodesOf(v interface{}) map[int]map[string]interface{} {
 
 func C05(c *core.Ctx) {
 	c.Assumption("TLC 1.8.0; spec/files/Extends.tla (resolution = base re-anchored, then Merge.tla's override of the local attributes); differential oracle: the real files with extends vs the flattened single document computed by the specification, both loaded by the real loader")
-	depth := 2
+	depth, reps := 3, 2
 	if !c.Quick() {
-		depth = 3
+		reps = 5
 	}
 	root := filepath.Join(c.Work, "wd")
 	mkdirs := func(wd string) {
@@ -250,7 +250,7 @@ func C05(c *core.Ctx) {
 		}
 		target := yamlTagged(map[string]interface{}{"services": tsvcs})
 		attr := asStr(cs["attr"])
-		key := fmt.Sprintf("%s depth=%d place=%v %s", attr, asInt(cs["depth"]), cs["place"], mainDoc)
+		key := fmt.Sprintf("%s %s depth=%d place=%v %s", asStr(cs["kind"]), attr, asInt(cs["depth"]), cs["place"], mainDoc)
 		c.Eval("chain|"+key, true)
 		rep := map[string]interface{}{"attribute": attr, "files": nodes, "main": mainDoc, "target": target}
 		if n%53 == 1 {
@@ -259,7 +259,7 @@ func C05(c *core.Ctx) {
 		pt, et := safeLoad(wd, nil, []namedDoc{{Name: filepath.Join(wd, "target.yaml"), Content: target}})
 		var dumps []string
 		var lastErr error
-		for rep := 0; rep < 4; rep++ { // fresh map orders: the result must not depend on visit order
+		for rep := 0; rep < reps; rep++ { // fresh map orders: the result must not depend on visit order
 			p, e := safeLoad(wd, nil, []namedDoc{{Name: filepath.Join(wd, "compose.yaml")}})
 			if e != nil {
 				lastErr = e
